@@ -112,3 +112,23 @@ def sany(module):
     p = subprocess.run(["tla-sany", module + ".tla"], cwd=SPEC, stdout=subprocess.PIPE, stderr=subprocess.STDOUT, text=True)
     ok = p.returncode == 0 and "Semantic errors" not in p.stdout and "Parse Error" not in p.stdout and "Fatal" not in p.stdout
     return ok, p.stdout
+
+def tlapm(module, deps, timeout=900, threads=8):
+    """Check the TLAPS proofs of spec/<module>.tla (with the modules it extends, `deps`) in a scratch directory.
+    Returns (ok, obligations_proved, text). Raises TlcError when the tool cannot be run."""
+    os.makedirs(OUT, exist_ok=True)
+    d = tempfile.mkdtemp(prefix=f"tlapm_{module}_", dir=OUT)
+    try:
+        for m in [module] + list(deps):
+            shutil.copyfile(os.path.join(SPEC, m + ".tla"), os.path.join(d, m + ".tla"))
+        try:
+            p = subprocess.run(["tlapm", "--threads", str(threads), "--cleanfp", module + ".tla"], cwd=d, stdout=subprocess.PIPE,
+                               stderr=subprocess.STDOUT, text=True, timeout=timeout)
+        except subprocess.TimeoutExpired:
+            raise TlcError(f"tlapm timeout after {timeout}s on {module}")
+        except FileNotFoundError:
+            raise TlcError("tlapm not found on PATH")
+        m = re.search(r"All (\d+) obligations? proved", p.stdout)
+        return (p.returncode == 0 and m is not None), (int(m.group(1)) if m else 0), p.stdout[-3000:]
+    finally:
+        shutil.rmtree(d, ignore_errors=True)
